@@ -27,14 +27,26 @@ TRUSTED = rc.TRUSTED_COMMON + [
 ]
 
 BASES = ["zap", "frob", "okcmd", "git", "ls", "rm", "echo", "cat", "node", "test", "[", "./tool", "bin/run",
-         "~/bin/gh", "@CWD@/bin/run"]
+         "~/bin/gh", "@CWD@/bin/run", "./a=b.sh"]  # ./a=b.sh: a command whose name merely contains "=" (not an assignment)
 ARGS = ["a", "x", "push", "status", "origin", "-f", "--force", "-v", "src/main.py", "./src/main.py",
-        "src/../src/main.py", "@CWD@/src/main.py", "~/n/f", "/etc/passwd", "bin/x.js", "1", "a=b", "zap"]
+        "src/../src/main.py", "@CWD@/src/main.py", "~/n/f", "/etc/passwd", "bin/x.js", "1", "a=b", "zap", "--opt=v", "./a=b.sh", "X+=v"]
 # a form is a list of components: an assignment prefix or one wrapper with its options
-FORMS = {"bare": [], "env": [["X=1"]], "env2": [["A=b", "C=d"]], "time": [["time"]], "timeout": [["timeout", "5"]],
-         "nice": [["nice", "-n", "3"]], "nohup": [["nohup"]], "command": [["command", "--"]],
-         "env+time": [["X=1"], ["time"]], "time+nice": [["time"], ["nice", "-n", "3"]]}
+# every bash spelling of an assignment word: NAME=v, NAME=, NAME="a b", NAME+=v, NAME[sub]=v, NAME[sub]+=v, several mixed
+ENVS = {"env": ["X=1"], "env2": ["A=b", "C=d"], "envempty": ["X="], "envquoted": ['X="a b"'], "envplus": ["PATH+=:/opt/bin"],
+        "envarr": ["a[0]=v"], "envarrplus": ["a[k]+=v"], "envmixed": ["X=1", "Y+=2", "a[1]=3", "Z="]}
+WRAPS = {"time": ["time"], "timeout": ["timeout", "5"], "nice": ["nice", "-n", "3"], "nohup": ["nohup"], "command": ["command", "--"]}
+ENV_WORDS = {w for v in ENVS.values() for w in v}
+FORMS = {"bare": [], "time+nice": [WRAPS["time"], WRAPS["nice"]]}
+for _w, _ws in WRAPS.items():
+    FORMS[_w] = [_ws]
+for _e, _es in ENVS.items():
+    FORMS[_e] = [_es]
+    for _w, _ws in WRAPS.items():
+        FORMS[f"{_e}+{_w}"] = [_es, _ws]          # X+=v timeout 5 cmd: the wrapper is an ordinary command word here
+    FORMS[f"time+{_e}"] = [WRAPS["time"], _es]     # time X+=v cmd: keyword, then a simple command with a prefix
 WRAPPERS = {k: [w for comp in v for w in comp] for k, v in FORMS.items()}
+BASIC_FORMS = ["bare", "time+nice"] + list(WRAPS) + list(ENVS) + ["env+time", "envplus+timeout", "time+envarr"]
+ENV_SYS_BASES = ["zap", "rm", "ls", "./tool", "test", "./a=b.sh"]
 
 
 def consulted_forms(form, words):
@@ -43,7 +55,7 @@ def consulted_forms(form, words):
     comps = FORMS[form]
     chain = []
     for i in range(len(comps) + 1):
-        if i < len(comps) and "=" in comps[i][0]:
+        if i < len(comps) and comps[i][0] in ENV_WORDS:
             continue
         if i == 0 and comps and comps[0] == ["time"]:
             continue  # a leading `time` is the shell keyword (a time node), not a command word
@@ -370,7 +382,7 @@ def run(tier, seed, replay=None):
         # systematic: every base x every wrapper form x (deny|ask|allow) x (literal | anchored | "base *")
         n_sys = 0
         for base in BASES:
-            for form in WRAPPERS:
+            for form in (WRAPPERS if base in ENV_SYS_BASES else BASIC_FORMS):
                 for dec in rc.VERDICTS:
                     for shape in ("lit", "anch", "star"):
                         words = [base, "a"] + (["]"] if base == "[" else [])
